@@ -192,6 +192,21 @@ func (rn *runner) shrink(scn *Scenario, f Finding) (*Scenario, Finding) {
 			cur = c
 		}
 	}
+	if cur.TZ != "" {
+		// does the finding need the time zone / the chosen instant?
+		c := cur
+		c.TZ = ""
+		if try(&c) {
+			cur = c
+		}
+	}
+	if cur.Epoch != 0 && cur.TZ == "" {
+		c := cur
+		c.Epoch = 0
+		if try(&c) {
+			cur = c
+		}
+	}
 	if cur.Root != "" {
 		// does the finding need the unusual cache directory at all?
 		c := cur
@@ -306,7 +321,8 @@ func (rn *runner) recordSweep(r *common.RNG, n int) {
 			setNow(c, func() time.Time { return at(now) })
 		}
 		before := &Snap{Record: raw, RecKind: kind}
-		terr := c.Trim()
+		var terr error
+		pn := safely(func() { terr = c.Trim() })
 		after := &Snap{RecKind: "none"}
 		if fi, err := os.Lstat(p); err == nil && fi.IsDir() {
 			after.RecKind = "dir"
@@ -317,6 +333,9 @@ func (rn *runner) recordSweep(r *common.RNG, n int) {
 		slack := int64(0)
 		if !injectable {
 			slack = 3 * sec
+		}
+		if pn != "" {
+			out.find("impl-violation", "no-panic", "panic:trim", "Trim panicked: "+pn)
 		}
 		trimOracles(out, before, after, now, slack, nil, nil, terr)
 		for _, t := range out.Tags {
@@ -503,6 +522,23 @@ func main() {
 	// 1c. crowded subdirectories: objects that cannot be stat-ed or removed among many stale entries
 	for _, s := range crowdScenarios() {
 		rn.one(s, "crowd-sweep")
+	}
+	// 1d. foreign directories with contents (entry-like and other names, three depths, every age class)
+	// and foreign objects with degenerate names among stale entries of that and of a later subdirectory
+	for _, s := range foreignDirScenarios() {
+		rn.one(s, "foreign-dir-sweep")
+	}
+	for _, s := range shortNameScenarios() {
+		rn.one(s, "short-name-sweep")
+	}
+	// 1e. the process's time zone: the thresholds are durations, not calendar days -- instants within
+	// five days after each clock change of several zones (and controls), entries around every threshold
+	tzs := tzScenarios()
+	for _, s := range tzs {
+		rn.one(s, "tz-sweep")
+	}
+	if len(tzPool) == 0 {
+		res.Notes = append(res.Notes, "no time zone with clock changes could be loaded (time.LoadLocation): the time-zone dimension ran with UTC only")
 	}
 	// 2. a small exhaustive block: one entry (with contents and empty), every age of the pool,
 	// each record class, trim now
